@@ -1,11 +1,541 @@
 /-
-  C03 — compiled and interpreted runners produce the same outcome (property theorems only).
+  C03 — compiled and interpreted runners produce the same outcome.
+
+  Property theorems only.  Subject: `Cel.evalI` (Cel.Model.EvalI: the interpreter, one clause per `Evaluator` rule
+  with that rule's `except` handlers) and `Cel.evalC` (Cel.Model.EvalC: the denotation of the Python text the
+  transpiler emits; exceptions are raised and become values only in `result()`), both over the same abstract
+  primitive semantics `S : Sem` (`operator.*`, `celtypes`, `base_functions`).  The handler sets, `result()`'s classes,
+  the places where the templates put `result()`, the macro helpers and `base_functions` are bridged to the text of
+  evaluation.py in `Cel.Bridge.Eval`.
+
+  Main statement (`evalC_eq_evalI`): for EVERY expression tree `e`, every error-free environment and every primitive
+  semantics obeying `PrimLaws`, if the interpreter returns (does not let a Python exception escape — that is C04's
+  subject) then both runners observe the same outcome: the same value, or an evaluation error in both — provided `e`
+  lies outside three syntactically decidable zones in which the unchanged code does diverge (`Expr.safe`):
+    * D7  an error *value* (`||`, `&&`, `?:`, `in`, `matches`, unbound function) flowing into a consumer of the
+          transpiled program that does not inspect it (list/map element, argument of a non-strict function, body of
+          map/filter/exists_one),
+    * D6  `has()` (the transpiled `has` returns a Python `bool`),
+    * D62 `all`/`exists` with a body that is not syntactically boolean (the transpiled helper coerces with BoolType).
+  For each zone an `example` below exhibits a concrete divergence of the two models (replayed on the implementation
+  by the corpus, `corpus/C03/witnesses.json`).
 -/
-import Cel.Model.PrimD
+import Cel.Lemmas.Eval
 namespace Cel.Props.C03
 open Cel
 
-theorem placeholder_vor_comm (x y : Val) (hx : x.isBool = true) (hy : y.isBool = true) : vor x y = vor y x := by
-  cases x <;> cases y <;> simp_all [Val.isBool, vor, Val.truthy, Bool.or_comm]
+mutual
+/-- **Core induction.** Whenever the interpreter returns (a value or an error value) on a `Safe` expression in an
+error-free environment, the denotation of the transpiled program yields the same value, or — for an error value —
+raises a class `result()` converts; and interpreter values never contain error objects. Structural induction over ALL
+expressions (any depth, any list length), mutual with the list version. -/
+theorem agree (S : Sem) (P : PrimLaws S) : (e : Expr) → (env : Env) → (v : Val) →
+    e.safe S = true → env.clean = true → evalI S e env = .ok v → Agree v (evalC S e env) ∧ Top v
+  | .lit w, env, v, hs, he, h => by
+      simp [evalI] at h; subst h
+      exact ⟨Or.inl rfl, Or.inr (by simpa [Expr.safe] using hs)⟩
+  | .badlit, env, v, hs, he, h => by
+      simp [evalI, catchH, HI.literal] at h; subst h
+      exact ⟨agree_err_of rfl caught_valueError, Or.inl rfl⟩
+  | .ident x, env, v, hs, he, h => by
+      simp only [evalI] at h
+      simp only [evalC]
+      cases hl : env.lookup x with
+      | some w =>
+        rw [hl] at h
+        simp only at h ⊢
+        cases h
+        exact ⟨Or.inl rfl, Or.inr (lookup_clean he hl)⟩
+      | none =>
+        rw [hl] at h
+        simp only at h ⊢
+        cases hf : S.isFun x with
+        | true => simp [hf] at h ⊢; subst h; exact ⟨Or.inl rfl, Or.inr rfl⟩
+        | false => simp [hf] at h ⊢; subst h; exact ⟨agree_err_of rfl caught_keyError, Or.inl rfl⟩
+  | .un op a, env, v, hs, he, h => by
+      simp only [Expr.safe] at hs
+      simp only [evalI] at h
+      obtain ⟨x, hx, h2⟩ := (bind_eq_ok _ _ _).1 h
+      have ih := agree S P a env x hs he hx
+      simp only [evalC]
+      exact un_step P (by rfl) ih.1 ih.2 h2
+  | .bin op a b, env, v, hs, he, h => by
+      simp only [Expr.safe, Bool.and_eq_true] at hs
+      simp only [evalI] at h
+      obtain ⟨x, hx, h2⟩ := (bind_eq_ok _ _ _).1 h
+      obtain ⟨y, hy, h3⟩ := (bind_eq_ok _ _ _).1 h2
+      have iha := agree S P a env x hs.1 he hx
+      have ihb := agree S P b env y hs.2 he hy
+      simp only [evalC]
+      exact bin_step P (by rfl) iha.1 ihb.1 iha.2 ihb.2 h3
+  | .idx a b, env, v, hs, he, h => by
+      simp only [Expr.safe, Bool.and_eq_true] at hs
+      simp only [evalI] at h
+      obtain ⟨x, hx, h2⟩ := (bind_eq_ok _ _ _).1 h
+      obtain ⟨y, hy, h3⟩ := (bind_eq_ok _ _ _).1 h2
+      have iha := agree S P a env x hs.1 he hx
+      have ihb := agree S P b env y hs.2 he hy
+      simp only [evalC]
+      exact bin_step P (by rfl) iha.1 ihb.1 iha.2 ihb.2 h3
+  | .sel a f, env, v, hs, he, h => by
+      simp only [Expr.safe] at hs
+      simp only [evalI] at h
+      obtain ⟨x, hx, h2⟩ := (bind_eq_ok _ _ _).1 h
+      cases h2
+      have ih := agree S P a env x hs he hx
+      simp only [evalC]
+      rcases ih.1 with h3 | ⟨rfl, c, hc, hcc⟩
+      · rw [h3]; exact select_agree f ih.2
+      · rw [hc]; exact ⟨agree_err_of rfl hcc, Or.inl rfl⟩
+  | .or a b, env, v, hs, he, h => by
+      simp only [Expr.safe, Bool.and_eq_true] at hs
+      simp only [evalI] at h
+      obtain ⟨x, hx, h2⟩ := (bind_eq_ok _ _ _).1 h
+      obtain ⟨y, hy, h3⟩ := (bind_eq_ok _ _ _).1 h2
+      have iha := agree S P a env x hs.1 he hx
+      have ihb := agree S P b env y hs.2 he hy
+      simp only [evalC, resultC_of_agree iha.1, resultC_of_agree ihb.1]
+      exact logical_step (f := vor) (fun _ _ _ => vor_error) (fun _ _ _ => vor_top) iha.2 ihb.2 h3
+  | .and a b, env, v, hs, he, h => by
+      simp only [Expr.safe, Bool.and_eq_true] at hs
+      simp only [evalI] at h
+      obtain ⟨x, hx, h2⟩ := (bind_eq_ok _ _ _).1 h
+      obtain ⟨y, hy, h3⟩ := (bind_eq_ok _ _ _).1 h2
+      have iha := agree S P a env x hs.1 he hx
+      have ihb := agree S P b env y hs.2 he hy
+      simp only [evalC, resultC_of_agree iha.1, resultC_of_agree ihb.1]
+      exact logical_step (f := vand) (fun _ _ _ => vand_error) (fun _ _ _ => vand_top) iha.2 ihb.2 h3
+  | .cond c x y, env, v, hs, he, h => by
+      simp only [Expr.safe, Bool.and_eq_true] at hs
+      simp only [evalI] at h
+      obtain ⟨cv, hcv, h2⟩ := (bind_eq_ok _ _ _).1 h
+      have ihc := agree S P c env cv hs.1.1 he hcv
+      obtain ⟨l', hl'⟩ := resultC_total (evalC_caught S P x env)
+      obtain ⟨r', hr'⟩ := resultC_total (evalC_caught S P y env)
+      simp only [evalC, resultC_of_agree ihc.1]
+      split at h2
+      · rename_i htr
+        obtain ⟨l, hl, h3⟩ := (bind_eq_ok _ _ _).1 h2
+        have ihx := agree S P x env l hs.1.2 he hl
+        rw [resultC_of_agree ihx.1, hr']
+        simp only [bind, Except.bind]
+        rcases catchH_ok_cases h3 with h4 | ⟨h4, d, h5⟩
+        · unfold vcond at h4 ⊢
+          split at h4
+          · cases h4
+          · rename_i hb
+            simp only [htr, if_true] at h4 ⊢
+            simp only [hb, if_false]
+            cases h4
+            exact ⟨Or.inl rfl, ihx.2⟩
+        · subst h4
+          unfold vcond at h5 ⊢
+          split at h5
+          · rename_i hb
+            simp only [hb, if_true]
+            exact ⟨agree_err_of rfl caught_typeError, Or.inl rfl⟩
+          · cases h5
+      · rename_i htr
+        obtain ⟨r, hr, h3⟩ := (bind_eq_ok _ _ _).1 h2
+        have ihy := agree S P y env r hs.2 he hr
+        rw [hl', resultC_of_agree ihy.1]
+        simp only [bind, Except.bind]
+        rcases catchH_ok_cases h3 with h4 | ⟨h4, d, h5⟩
+        · unfold vcond at h4 ⊢
+          split at h4
+          · cases h4
+          · rename_i hb
+            simp only [htr] at h4 ⊢
+            simp only [hb, if_false]
+            cases h4
+            exact ⟨Or.inl rfl, ihy.2⟩
+        · subst h4
+          unfold vcond at h5 ⊢
+          split at h5
+          · rename_i hb
+            simp only [hb, if_true]
+            exact ⟨agree_err_of rfl caught_typeError, Or.inl rfl⟩
+          · cases h5
+  | .list xs, env, v, hs, he, h => by
+      simp only [Expr.safe, Bool.and_eq_true] at hs
+      simp only [evalI] at h
+      obtain ⟨vs, hvs, h2⟩ := (bind_eq_ok _ _ _).1 h
+      have ih := agreeL S P xs env vs hs.2 he hvs
+      simp only [evalC]
+      cases hf : firstErr vs with
+      | true =>
+        simp [hf] at h2; subst h2
+        rcases ih.1 with h3 | ⟨_, c, hc, hcc⟩
+        · have := firstErr_of_cleanL (evalCs_clean S P xs env vs hs.1 he h3)
+          rw [hf] at this; cases this
+        · rw [hc]; exact ⟨agree_err_of rfl hcc, Or.inl rfl⟩
+      | false =>
+        simp [hf] at h2; subst h2
+        rcases ih.1 with h3 | ⟨h3, _⟩
+        · rw [h3]
+          exact ⟨Or.inl rfl, Or.inr (by simpa [Val.clean] using topL_clean ih.2 hf)⟩
+        · rw [hf] at h3; cases h3
+  | .map xs, env, v, hs, he, h => by
+      simp only [Expr.safe, Bool.and_eq_true] at hs
+      simp only [evalI] at h
+      obtain ⟨vs, hvs, h2⟩ := (bind_eq_ok _ _ _).1 h
+      have ih := agreeL S P xs env vs hs.2 he hvs
+      simp only [evalC]
+      cases hf : firstErr vs with
+      | true =>
+        simp [hf] at h2; subst h2
+        rcases ih.1 with h3 | ⟨_, c, hc, hcc⟩
+        · have := firstErr_of_cleanL (evalCs_clean S P xs env vs hs.1 he h3)
+          rw [hf] at this; cases this
+        · rw [hc]; exact ⟨agree_err_of rfl hcc, Or.inl rfl⟩
+      | false =>
+        simp [hf] at h2
+        rcases ih.1 with h3 | ⟨h3, _⟩
+        · rw [h3]
+          exact prim_same P (Or.inr (topL_clean ih.2 hf)) ih.2 h2
+        · rw [hf] at h3; cases h3
+  | .call f xs, env, v, hs, he, h => by
+      simp only [Expr.safe, Bool.and_eq_true, Bool.or_eq_true] at hs
+      simp only [evalI] at h
+      obtain ⟨vs, hvs, h2⟩ := (bind_eq_ok _ _ _).1 h
+      have ih := agreeL S P xs env vs hs.2 he hvs
+      simp only [evalC]
+      cases hfun : S.isFun f with
+      | false =>
+        simp [hfun] at h2 ⊢; subst h2
+        rcases ih.1 with h3 | ⟨_, c, hc, hcc⟩
+        · rw [h3]; exact ⟨Or.inl rfl, Or.inl rfl⟩
+        · rw [hc]; exact ⟨agree_err_of rfl hcc, Or.inl rfl⟩
+      | true =>
+        simp only [hfun, Bool.not_true, Bool.false_eq_true, if_false] at h2 ⊢
+        cases hf : firstErr vs with
+        | true =>
+          simp [hf] at h2; subst h2
+          rcases ih.1 with h3 | ⟨_, c, hc, hcc⟩
+          · rw [h3]
+            rcases hs.1 with hst | hn
+            · simp only [bind, Except.bind]
+              cases hp : S.prim (.fn f) vs with
+              | ok w =>
+                have := P.strict (.fn f) vs w (by simpa [strictOp] using hst) hf hp
+                subst this; exact ⟨Or.inl rfl, Or.inl rfl⟩
+              | error c => exact ⟨agree_err_of rfl (P.caught _ _ _ hp), Or.inl rfl⟩
+            · have := firstErr_of_cleanL (evalCs_clean S P xs env vs hn he h3)
+              rw [hf] at this; cases this
+          · rw [hc]; exact ⟨agree_err_of rfl hcc, Or.inl rfl⟩
+        | false =>
+          simp [hf] at h2
+          rcases ih.1 with h3 | ⟨h3, _⟩
+          · rw [h3]
+            exact prim_same P (Or.inr (topL_clean ih.2 hf)) ih.2 h2
+          · rw [hf] at h3; cases h3
+  | .mcall a f xs, env, v, hs, he, h => by
+      simp only [Expr.safe, Bool.and_eq_true, Bool.or_eq_true] at hs
+      simp only [evalI] at h
+      obtain ⟨o, ho, h2⟩ := (bind_eq_ok _ _ _).1 h
+      obtain ⟨vs, hvs, h3⟩ := (bind_eq_ok _ _ _).1 h2
+      have iha := agree S P a env o hs.1.2 he ho
+      have ihs := agreeL S P xs env vs hs.2 he hvs
+      -- the transpiled call evaluates receiver and arguments like a list `a :: xs`
+      have hAL : AgreeL (o :: vs) (evalCs S (a :: xs) env) := by
+        simp only [evalCs]; exact agreeL_cons iha.1 ihs.1
+      have hTL : TopL (o :: vs) := ⟨iha.2, ihs.2⟩
+      have hC : evalC S (.mcall a f xs) env =
+          (evalCs S (a :: xs) env >>= fun ws => if !S.isFun f then .ok .err else S.prim (.fn f) ws) := by
+        simp only [evalC, evalCs]
+        cases evalC S a env with
+        | error c => rfl
+        | ok o' =>
+          cases evalCs S xs env with
+          | error c => rfl
+          | ok vs' => rfl
+      rw [hC]
+      have hfe : firstErr (o :: vs) = (o.isErr || firstErr vs) := rfl
+      cases hfun : S.isFun f with
+      | false =>
+        simp [hfun] at h3 ⊢; subst h3
+        rcases hAL with h4 | ⟨_, c, hc, hcc⟩
+        · rw [h4]; exact ⟨Or.inl rfl, Or.inl rfl⟩
+        · rw [hc]; exact ⟨agree_err_of rfl hcc, Or.inl rfl⟩
+      | true =>
+        simp only [hfun, Bool.not_true, Bool.false_eq_true, if_false] at h3 ⊢
+        cases hf : firstErr (o :: vs) with
+        | true =>
+          have hv : v = .err := by
+            rw [hfe] at hf
+            cases hoe : o.isErr with
+            | true => simp [hoe] at h3; exact h3.symm
+            | false =>
+              simp [hoe] at hf
+              simp [hoe, hf] at h3; exact h3.symm
+          subst hv
+          rcases hAL with h4 | ⟨_, c, hc, hcc⟩
+          · rw [h4]
+            rcases hs.1.1 with hst | hn
+            · simp only [bind, Except.bind]
+              cases hp : S.prim (.fn f) (o :: vs) with
+              | ok w =>
+                have := P.strict (.fn f) (o :: vs) w (by simpa [strictOp] using hst) hf hp
+                subst this; exact ⟨Or.inl rfl, Or.inl rfl⟩
+              | error c => exact ⟨agree_err_of rfl (P.caught _ _ _ hp), Or.inl rfl⟩
+            · have hn' : Expr.noErrValL S (a :: xs) = true := by
+                simp only [Expr.noErrValL, Bool.and_eq_true]; simpa using hn
+              have := firstErr_of_cleanL (evalCs_clean S P (a :: xs) env (o :: vs) hn' he h4)
+              rw [hf] at this; cases this
+          · rw [hc]; exact ⟨agree_err_of rfl hcc, Or.inl rfl⟩
+        | false =>
+          rw [hfe] at hf
+          simp only [Bool.or_eq_false_iff] at hf
+          simp [hf.1, hf.2] at h3
+          have hf' : firstErr (o :: vs) = false := by rw [hfe]; simp [hf.1, hf.2]
+          rcases hAL with h4 | ⟨h4, _⟩
+          · rw [h4]
+            exact prim_same P (Or.inr (topL_clean hTL hf')) hTL h3
+          · rw [hf'] at h4; cases h4
+  | .macro k a x body, env, v, hs, he, h => by
+      simp only [Expr.safe, Bool.and_eq_true] at hs
+      simp only [evalI] at h
+      obtain ⟨recv, hrecv, h2⟩ := (bind_eq_ok _ _ _).1 h
+      have iha := agree S P a env recv hs.1.1 he hrecv
+      simp only [evalC]
+      cases hre : recv.isErr with
+      | true =>
+        simp [hre] at h2; subst h2
+        have := isErr_eq hre; subst this
+        rcases iha.1 with h3 | ⟨_, c, hc, hcc⟩
+        · rw [h3]
+          simp only [bind, Except.bind]
+          cases hi : S.iter .err with
+          | ok elems => exact absurd hi (P.iterErr elems)
+          | error c =>
+            rw [P.iterError _ _ hi]
+            exact ⟨agree_err_of rfl caught_typeError, Or.inl rfl⟩
+        · rw [hc]; exact ⟨agree_err_of rfl hcc, Or.inl rfl⟩
+      | false =>
+        simp only [hre, Bool.false_eq_true, if_false] at h2
+        have hrc : recv.clean = true := top_clean iha.2 hre
+        have hCa : evalC S a env = .ok recv := by
+          rcases iha.1 with h3 | ⟨h3, _⟩
+          · exact h3
+          · subst h3; simp [Val.isErr] at hre
+        rw [hCa]
+        simp only [ok_bind]
+        cases hi : S.iter recv with
+        | error c =>
+          rw [hi] at h2
+          have := P.iterError _ _ hi; subst this
+          simp at h2; subst h2
+          simp only [error_bind]
+          exact ⟨agree_err_of rfl caught_typeError, Or.inl rfl⟩
+        | ok elems =>
+          rw [hi] at h2
+          simp only at h2
+          simp only [ok_bind]
+          have hec := P.iterClean _ _ hrc hi
+          have H : ∀ u, u.clean = true → ∀ w, evalI S body (env.bind x u) = .ok w →
+              Agree w (evalC S body (env.bind x u)) ∧ Top w :=
+            fun u hu w hw => agree S P body (env.bind x u) w hs.1.2 (bind_clean he hu) hw
+          have HE : ∀ u c, evalI S body (env.bind x u) = .error c → Caught c :=
+            fun u c => evalI_caught S P body (env.bind x u) c
+          cases k with
+          | map =>
+            have hbn : body.noErrVal S = true := by simpa using hs.2
+            have HN : ∀ u w, u.clean = true → evalC S body (env.bind x u) = .ok w → w.clean = true :=
+              fun u w hu hw => evalC_clean S P body (env.bind x u) w hbn (bind_clean he hu) hw
+            have pb := plain_bodies (fI := fun u => evalI S body (env.bind x u)) (fC := fun u => evalC S body (env.bind x u)) H HN HE hec
+            have := plain_macro_step (k := fun rs => Val.list rs) pb.1 pb.2 h2
+            refine ⟨this.1, ?_⟩
+            rcases this.2 with h3 | ⟨rs, hrs, h3⟩
+            · exact Or.inl h3
+            · subst h3; exact Or.inr (by simpa [Val.clean] using hrs)
+          | filter =>
+            have hbn : body.noErrVal S = true := by simpa using hs.2
+            have HN : ∀ u w, u.clean = true → evalC S body (env.bind x u) = .ok w → w.clean = true :=
+              fun u w hu hw => evalC_clean S P body (env.bind x u) w hbn (bind_clean he hu) hw
+            have pb := plain_bodies (fI := fun u => evalI S body (env.bind x u)) (fC := fun u => evalC S body (env.bind x u)) H HN HE hec
+            simp only [filterMV_eq] at h2 ⊢
+            have h2' : catchH HI.macroBody
+                (mapMV (fun u => raiseIfErr (evalI S body (env.bind x u))) elems >>= fun rs => .ok (Val.list (selBy rs elems))) = .ok v := by
+              rw [← h2]; congr 1
+              cases mapMV (fun u => raiseIfErr (evalI S body (env.bind x u))) elems <;> rfl
+            have := plain_macro_step (k := fun rs => Val.list (selBy rs elems)) pb.1 pb.2 h2'
+            have hC : (mapMV (fun u => evalC S body (env.bind x u)) elems >>= fun rs => (.ok (Val.list (selBy rs elems)) : PyM Val)) =
+                ((mapMV (fun u => evalC S body (env.bind x u)) elems >>= fun rs => (.ok (selBy rs elems) : PyM (List Val))) >>= fun rs => .ok (Val.list rs)) := by
+              cases mapMV (fun u => evalC S body (env.bind x u)) elems <;> rfl
+            rw [← hC]
+            refine ⟨this.1, ?_⟩
+            rcases this.2 with h3 | ⟨rs, _, h3⟩
+            · exact Or.inl h3
+            · subst h3; exact Or.inr (by simpa [Val.clean] using selBy_clean (rs := rs) hec)
+          | existsOne =>
+            have hbn : body.noErrVal S = true := by simpa using hs.2
+            have HN : ∀ u w, u.clean = true → evalC S body (env.bind x u) = .ok w → w.clean = true :=
+              fun u w hu hw => evalC_clean S P body (env.bind x u) w hbn (bind_clean he hu) hw
+            have pb := plain_bodies (fI := fun u => evalI S body (env.bind x u)) (fC := fun u => evalC S body (env.bind x u)) H HN HE hec
+            simp only [countMV_eq] at h2 ⊢
+            have h2' : catchH HI.macroBody
+                (mapMV (fun u => raiseIfErr (evalI S body (env.bind x u))) elems >>= fun rs => .ok (Val.bool (countBy rs == 1))) = .ok v := by
+              rw [← h2]; congr 1
+              cases mapMV (fun u => raiseIfErr (evalI S body (env.bind x u))) elems <;> rfl
+            have := plain_macro_step (k := fun rs => Val.bool (countBy rs == 1)) pb.1 pb.2 h2'
+            have hC : (mapMV (fun u => evalC S body (env.bind x u)) elems >>= fun rs => (.ok (Val.bool (countBy rs == 1)) : PyM Val)) =
+                ((mapMV (fun u => evalC S body (env.bind x u)) elems >>= fun rs => (.ok (countBy rs) : PyM Nat)) >>= fun n => .ok (Val.bool (n == 1))) := by
+              cases mapMV (fun u => evalC S body (env.bind x u)) elems <;> rfl
+            rw [← hC]
+            refine ⟨this.1, ?_⟩
+            rcases this.2 with h3 | ⟨rs, _, h3⟩
+            · exact Or.inl h3
+            · subst h3; exact Or.inr rfl
+          | all =>
+            have hbb : body.boolish = true := by simpa using hs.2
+            obtain ⟨rs, hrs, h3⟩ := (bind_eq_ok _ _ _).1 h2
+            have hC := ss_bodies (fI := fun u => evalI S body (env.bind x u)) (fC := fun u => evalC S body (env.bind x u)) H HE hec rs hrs
+            have hB : ∀ r ∈ rs, ValB r := mapMV_forall (Q := ValB) (fun u r hr => by
+              rcases ssBody_ok hr with h5 | ⟨h5, _⟩
+              · exact boolish_val S P body (env.bind x u) r hbb h5
+              · subst h5; exact valB_err) hrs
+            have hR := foldAnd_valB (valB_bool true) hB h3
+            simp only [hC, ok_bind, h3]
+            exact fold_step P hR
+          | exists_ =>
+            have hbb : body.boolish = true := by simpa using hs.2
+            obtain ⟨rs, hrs, h3⟩ := (bind_eq_ok _ _ _).1 h2
+            have hC := ss_bodies (fI := fun u => evalI S body (env.bind x u)) (fC := fun u => evalC S body (env.bind x u)) H HE hec rs hrs
+            have hB : ∀ r ∈ rs, ValB r := mapMV_forall (Q := ValB) (fun u r hr => by
+              rcases ssBody_ok hr with h5 | ⟨h5, _⟩
+              · exact boolish_val S P body (env.bind x u) r hbb h5
+              · subst h5; exact valB_err) hrs
+            have hR := foldOr_valB (valB_bool false) hB h3
+            simp only [hC, ok_bind, h3]
+            exact fold_step P hR
+  | .has a, env, v, hs, he, h => by simp [Expr.safe] at hs
+  | .dyn a, env, v, hs, he, h => by
+      simp only [Expr.safe] at hs
+      simp only [evalI] at h
+      simp only [evalC]
+      exact agree S P a env v hs he h
+theorem agreeL (S : Sem) (P : PrimLaws S) : (xs : List Expr) → (env : Env) → (vs : List Val) →
+    Expr.safeL S xs = true → env.clean = true → evalIs S xs env = .ok vs → AgreeL vs (evalCs S xs env) ∧ TopL vs
+  | [], env, vs, hs, he, h => by
+      simp [evalIs] at h; subst h
+      exact ⟨Or.inl rfl, trivial⟩
+  | x :: xs, env, vs, hs, he, h => by
+      simp only [Expr.safeL, Bool.and_eq_true] at hs
+      simp only [evalIs] at h
+      obtain ⟨v, hv, h2⟩ := (bind_eq_ok _ _ _).1 h
+      obtain ⟨vs', hvs, h3⟩ := (bind_eq_ok _ _ _).1 h2
+      cases h3
+      have ih1 := agree S P x env v hs.1 he hv
+      have ih2 := agreeL S P xs env vs' hs.2 he hvs
+      simp only [evalCs]
+      exact ⟨agreeL_cons ih1.1 ih2.1, ih1.2, ih2.2⟩
+end
+
+
+/-- observable outcome of a returned interpreter value vs. an agreeing compiled denotation -/
+theorem obs_of_agree {S : Sem} {e : Expr} {env : Env} {v : Val} (hI : evalI S e env = .ok v)
+    (hA : Agree v (evalC S e env)) : obs (runC S e env) = obs (runI S e env) := by
+  have hr := resultC_of_agree hA
+  unfold runC runI
+  rw [hr, hI]
+  cases v <;> rfl
+
+/-- **C03, main theorem.** For every expression, every error-free activation and every primitive semantics obeying
+`PrimLaws`: if the interpreter returns, the compiled runner observes the same outcome (equal value, or an
+evaluation error in both) — under the decidable side condition `Expr.safe`. -/
+theorem evalC_eq_evalI (S : Sem) (P : PrimLaws S) (e : Expr) (env : Env) (hs : e.safe S = true)
+    (he : env.clean = true) (v : Val) (hI : evalI S e env = .ok v) :
+    obs (runC S e env) = obs (runI S e env) :=
+  obs_of_agree hI (agree S P e env v hs he hI).1
+
+/-- The compiled runner turns every outcome into a value or a `CELEvalError` (`Transpiler.evaluate`'s blanket
+handler) … -/
+theorem runC_only_celEval (S : Sem) (e : Expr) (env : Env) (c : Exc) (h : runC S e env = .error c) : c = .celEval := by
+  unfold runC at h
+  split at h <;> cases h <;> rfl
+
+/-- … and, given the primitive laws, it never even reaches that blanket handler: the transpiled program raises only
+classes `result()` converts, for ALL expressions (no side condition). This is why an unselected `?:` branch or an
+absorbed `||` operand cannot make the compiled runner fail (D8 was a violation of `PrimLaws.caught`). -/
+theorem compiled_raises_only_caught (S : Sem) (P : PrimLaws S) (e : Expr) (env : Env) (c : Exc)
+    (h : evalC S e env = .error c) : Caught c :=
+  evalC_caught S P e env c h
+
+/-- Program result of the compiled runner is total: a value or an error value, never an escaping exception. -/
+theorem compiled_result_total (S : Sem) (P : PrimLaws S) (e : Expr) (env : Env) : ∃ w, resultC (evalC S e env) = .ok w :=
+  resultC_total (evalC_caught S P e env)
+
+/-- If the interpreter lets an exception escape (C04's defect zone), its class is one `result()` converts, never a
+`CELEvalError` raised by a macro sub-evaluator (those are caught at the macro since the D5 fix). -/
+theorem interp_escapes_only_caught (S : Sem) (P : PrimLaws S) (e : Expr) (env : Env) (c : Exc)
+    (h : evalI S e env = .error c) : Caught c :=
+  evalI_caught S P e env c h
+
+/-- **Absorption corollary.** An error the interpreter lets `||` absorb is absorbed by the compiled runner too. -/
+theorem or_absorbs (S : Sem) (P : PrimLaws S) (a b : Expr) (env : Env) (hs : (Expr.or a b).safe S = true)
+    (he : env.clean = true) (h : evalI S (.or a b) env = .ok (.bool true)) :
+    obs (runC S (.or a b) env) = .value (.bool true) := by
+  rw [evalC_eq_evalI S P _ env hs he _ h]
+  unfold runI; rw [h]; rfl
+theorem and_absorbs (S : Sem) (P : PrimLaws S) (a b : Expr) (env : Env) (hs : (Expr.and a b).safe S = true)
+    (he : env.clean = true) (h : evalI S (.and a b) env = .ok (.bool false)) :
+    obs (runC S (.and a b) env) = .value (.bool false) := by
+  rw [evalC_eq_evalI S P _ env hs he _ h]
+  unfold runI; rw [h]; rfl
+/-- `?:` is lazy in the interpreter and strict-under-`result()` in the transpiled code; they agree whatever the
+unselected branch does. -/
+theorem cond_absorbs (S : Sem) (P : PrimLaws S) (c x y : Expr) (env : Env) (hs : (Expr.cond c x y).safe S = true)
+    (he : env.clean = true) (v : Val) (h : evalI S (.cond c x y) env = .ok v) :
+    obs (runC S (.cond c x y) env) = obs (runI S (.cond c x y) env) :=
+  evalC_eq_evalI S P _ env hs he v h
+
+/-- a syntactically boolean expression is boolean-valued (used for the bodies of `all`/`exists`) -/
+theorem boolish_is_boolean (S : Sem) (P : PrimLaws S) (e : Expr) (env : Env) (w : Val) (hb : e.boolish = true)
+    (h : evalI S e env = .ok w) : w = .err ∨ w.isBool = true :=
+  boolish_val S P e env w hb h
+
+/-! ### the excluded zones do diverge (concrete witnesses on the driver's primitive semantics) -/
+
+/-- `1/0 > 0 || false` — an expression whose compiled value is an error *object* -/
+def errOr : Expr := .or (.bin .gt (.bin .div (.lit (.int 1)) (.lit (.int 0))) (.lit (.int 0))) (.lit (.bool false))
+
+/-- D7: `[1/0 > 0 || false]` — interpreter: error; compiled: a list holding the error object. Not `safe`. -/
+example : (Expr.list [errOr]).safe PrimD.sem = false := by decide
+example : obs (runI PrimD.sem (.list [errOr]) []) = .error := by rfl
+example : obs (runC PrimD.sem (.list [errOr]) []) = .value (.list [.err]) := by rfl
+/-- D7: `[1].map(x, 1/0 > 0 || false)`, `[1].filter(x, …)` keeps the element, `[1].exists_one(x, …)` counts it -/
+example : (Expr.macro .map (.list [.lit (.int 1)]) "x" errOr).safe PrimD.sem = false := by decide
+example : obs (runI PrimD.sem (.macro .map (.list [.lit (.int 1)]) "x" errOr) []) = .error := by rfl
+example : obs (runC PrimD.sem (.macro .map (.list [.lit (.int 1)]) "x" errOr) []) = .value (.list [.err]) := by rfl
+example : obs (runC PrimD.sem (.macro .filter (.list [.lit (.int 1)]) "x" errOr) []) = .value (.list [.int 1]) := by rfl
+example : obs (runI PrimD.sem (.macro .filter (.list [.lit (.int 1)]) "x" errOr) []) = .error := by rfl
+example : obs (runC PrimD.sem (.macro .existsOne (.list [.lit (.int 1)]) "x" errOr) []) = .value (.bool true) := by rfl
+example : obs (runI PrimD.sem (.macro .existsOne (.list [.lit (.int 1)]) "x" errOr) []) = .error := by rfl
+/-- D6: `has([].a)` — BoolType in the interpreter, a Python bool in the transpiled program -/
+example : (Expr.has (.sel (.list []) "a")).safe PrimD.sem = false := by decide
+example : obs (runI PrimD.sem (.has (.sel (.list []) "a")) []) = .value (.bool false) := by rfl
+example : obs (runC PrimD.sem (.has (.sel (.list []) "a")) []) = .value (.pybool false) := by rfl
+/-- D62: `[1].all(x, 5)` — the raw fold in the interpreter, `BoolType(5)` in the transpiled helper -/
+example : (Expr.macro .all (.list [.lit (.int 1)]) "x" (.lit (.int 5))).safe PrimD.sem = false := by decide
+example : obs (runI PrimD.sem (.macro .all (.list [.lit (.int 1)]) "x" (.lit (.int 5))) []) = .value (.int 5) := by rfl
+example : obs (runC PrimD.sem (.macro .all (.list [.lit (.int 1)]) "x" (.lit (.int 5))) []) = .value (.bool true) := by rfl
+
+/-! ### non-vacuity: the side conditions hold for ordinary expressions, absorbed errors included -/
+
+/-- `true || [1, 2].map(x, x / 0)[0] > 0` (the D5 witness) is `safe`, and both runners give `true` -/
+def d5 : Expr := .or (.lit (.bool true))
+  (.bin .gt (.idx (.macro .map (.list [.lit (.int 1), .lit (.int 2)]) "x" (.bin .div (.ident "x") (.lit (.int 0)))) (.lit (.int 0))) (.lit (.int 0)))
+example : d5.safe PrimD.sem = true := by decide
+example : obs (runI PrimD.sem d5 []) = .value (.bool true) := by rfl
+example : obs (runC PrimD.sem d5 []) = .value (.bool true) := by rfl
+/-- `[1, 2, 0].all(x, 6 / x > 1 || x == 0) ? size([1]) : 1 / 0` -/
+def ex2 : Expr := .cond
+  (.macro .all (.list [.lit (.int 1), .lit (.int 2), .lit (.int 0)]) "x"
+    (.or (.bin .gt (.bin .div (.lit (.int 6)) (.ident "x")) (.lit (.int 1))) (.bin .eq (.ident "x") (.lit (.int 0)))))
+  (.call "size" [.cond (.lit (.bool true)) (.list [.lit (.int 1)]) (.list [])])
+  (.bin .div (.lit (.int 1)) (.lit (.int 0)))
+example : ex2.safe PrimD.sem = true := by decide
+example : obs (runI PrimD.sem ex2 []) = .value (.int 1) := by rfl
+example : obs (runC PrimD.sem ex2 []) = .value (.int 1) := by rfl
 
 end Cel.Props.C03
